@@ -102,3 +102,69 @@ def cut(src, kind, name, within=None, nth=0):
         start = ls
     end = toks[e].pos + 1
     return src[start:end], toks[s].line, toks[e].line
+
+
+def find_fn_with_context(src, name):
+    """All definitions `fn name` in src, each as (text, enclosing_impl_header or None).
+    The header is the text from `impl` up to (not including) the `{` of the block that directly encloses the fn."""
+    toks, _ = lex(src)
+    out = []
+    stack = []   # indices of the '{' tokens currently open
+    for k, t in enumerate(toks):
+        if t.text == "{":
+            stack.append(k)
+        elif t.text == "}":
+            if stack:
+                stack.pop()
+        elif t.text == "fn" and k + 1 < len(toks) and toks[k + 1].text == name:
+            header = None
+            if stack:
+                ob = stack[-1]
+                # walk back from the '{' to the start of its header
+                j = ob - 1
+                while j >= 0 and toks[j].text not in ("}", ";", "{"):
+                    j -= 1
+                hdr_toks = toks[j + 1:ob]
+                # skip attributes / doc attributes in front
+                while hdr_toks and hdr_toks[0].text == "#":
+                    depth = 0
+                    m = 1
+                    while m < len(hdr_toks):
+                        if hdr_toks[m].text == "[":
+                            depth += 1
+                        elif hdr_toks[m].text == "]":
+                            depth -= 1
+                            if depth == 0:
+                                break
+                        m += 1
+                    hdr_toks = hdr_toks[m + 1:]
+                if hdr_toks and hdr_toks[0].text in ("impl", "unsafe"):
+                    header = src[hdr_toks[0].pos:toks[ob].pos].strip()
+                elif hdr_toks and hdr_toks[0].text == "fn" or any(x.text == "fn" for x in hdr_toks):
+                    continue   # a nested fn: it comes along with its parent
+                else:
+                    continue
+            # start: first token on the same line
+            sidx = k
+            while sidx > 0 and toks[sidx - 1].line == toks[k].line and toks[sidx - 1].text not in ("{", "}", ";"):
+                sidx -= 1
+            depth = 0
+            j = k
+            e = None
+            while j < len(toks):
+                x = toks[j].text
+                if x in "([":
+                    depth += 1
+                elif x in ")]":
+                    depth -= 1
+                elif x == ";" and depth == 0:
+                    e = j
+                    break
+                elif x == "{" and depth == 0:
+                    e = _block_end(toks, j)
+                    break
+                j += 1
+            if e is None:
+                continue
+            out.append((src[toks[sidx].pos:toks[e].pos + 1], header))
+    return out
